@@ -54,19 +54,19 @@ CHECKS = {
    "Canaries see only writes near the target; sanitizers only executed paths; allocation budget is a generous linear bound. A sixth of the abandon cases configure the unfolder with user unfolders (differential against a new unfolder of the same configuration); suite nil-targets covers typed nil pointer targets.", "4.C14"),
  "C15": ("exploration", "scribble-and-compare aliasing monitor, forced-GC differential, checkptr and ASan builds over the real pipelines",
    "Targets are snapshotted, every reachable buffer is overwritten or reused by same-layout follow-up documents through the same parser/unfolder, and the targets re-compared; pipelines are re-run with GC forced at every event; all pipelines run under race+checkptr and (thorough) ASan.",
-   "A stale zero-copy string is visible only if its memory is overwritten afterwards; the harness reaches caller chunks and parser buffers.", "4.C15"),
+   "A stale zero-copy string is visible only if its memory is overwritten afterwards; the harness reaches caller chunks and parser buffers. Suite alias-user-state does the same for key and string values that user unfold states (Expander, registered UnfoldState) keep as handed over.", "4.C15"),
  "C16": ("fault_enumeration", "exhaustive fault-position sweep: failing writer at every write k, failing visitor at every event k",
    "For each stream/document/value the fault position is enumerated over ALL writes (encoders) resp. ALL events (parsers, Fold, adapters) of the fault-free run; the call sequence must report an error / return the visitor's own error and deliver nothing afterwards.",
    "Faults are persistent (as the property states) and injected at the io.Writer / Visitor boundary; after the error the caller's next calls (Next x3, remaining Writes) are made too and must deliver no event.", "4.C16"),
  "C17": ("exploration", "history differential: used instance vs fresh instance on a probe; hook assertion of idle stack depths",
-   "Histories of 0..6 complete documents through one encoder / parser / decoder / iterator / unfolder are followed by a probe whose output is compared with a new instance's; hooks assert idle nesting stacks after every document.",
-   "Needs the verif depth accessors for the idle assertion (output comparison works without). Histories include the key cache, user unfolders (same configuration on both sides), JSON options changed before the probe and buffer size 0.", "4.C17"),
+   "Histories of 0..6 (one in 16: 7..40) complete documents through one encoder / parser / decoder / iterator / unfolder are followed by a probe whose output is compared with a new instance's; hooks assert idle nesting stacks after every document.",
+   "Needs the verif depth accessors for the idle assertion (output comparison works without). Histories include the key cache, user unfolders (same configuration on both sides), JSON options changed before the probe, Reset() between documents and buffer size 0.", "4.C17"),
  "C18": ("exploration", "offline checker over the recorded history of Next calls vs reference documents, under varied reader schedules",
    "Streams of 0..5 documents are read through byte and reader decoders with read sizes from 1 byte to the buffer size and EOF with/after data; the recorded history of Next results and events is checked against the reference values (one value per call, then io.EOF, truncation != EOF).",
-   "Zero-length reads are issued only by way of buffer size 0 (which must not hang); JSON values are whitespace-separated as the property states.", "4.C18"),
+   "Zero-length reads are issued only by way of buffer size 0 (which must not hang); JSON values are whitespace-separated as the property states; in a cut stream every Next that returns nil must have delivered one complete value.", "4.C18"),
  "C19": ("exploration", "Go race detector over barrier-released goroutine rounds + per-goroutine result equality with a sequential run",
    "4..64 goroutines with their own instances share inputs, values and freshly created types (first-use and cached-use) under GOMAXPROCS 2/16 with injected yields; race-log blocks and any deviation from the sequential results are violations; distinct interleavings are counted.",
-   "A race is reported only if both accesses occur in explored executions; failpoints are not used (no locks or suspension points to widen). Goroutines use every parser entry point and both pull decoders, differently configured iterators, one shared FoldOption value, and values with inline interface fields.", "4.C19"),
+   "A race is reported only if both accesses occur in explored executions; failpoints are not used (no locks or suspension points to widen). Goroutines use every parser entry point and both pull decoders, differently configured iterators, one shared FoldOption value, values with inline interface fields, and targets filled through user unfold states (Expander / registered state).", "4.C19"),
  "C20": ("exploration", "differential: unfolder with key cache vs without vs document value, keys delivered from scribbled buffers",
    "Key sequences over small alphabets drive hits, misses, evictions and re-insertions for capacities 0..64; each document's target with the cache must equal the target without it and the document's value, with every key's source bytes overwritten after delivery.",
    "Eviction order is observed (hook) but not an oracle; suite capacities runs capacities up to 2^63-1 with an allocation bound on EnableKeyCache itself.", "4.C20"),
